@@ -1,9 +1,11 @@
 (* C06 - Condorcet winner, Smith set and Schwartz set.
-   Property theorems only.  Model: Model/Condorcet.v; proofs: Proofs/Condorcet_proofs.v.
+   Property theorems only.  Model: Model/Condorcet.v; proofs: Proofs/Condorcet_proofs.v, Smith_proofs.v,
+   Schwartz_proofs.v, SchwartzInv_proofs.v.
    Pairwise dictionaries are association lists with distinct keys and non-negative
    counts; an absent pair counts as 0 (pget0).  beats a b := cnt(b,a) < cnt(a,b). *)
-From Coq Require Import ZArith List Arith Sorted Lia.
-From VL Require Import Prelude.PyDict Model.GetNBest Model.Condorcet Proofs.Condorcet_proofs Proofs.Smith_proofs.
+From Coq Require Import ZArith List Arith Sorted Lia Permutation.
+From VL Require Import Prelude.PyDict Model.GetNBest Model.Condorcet Proofs.Condorcet_proofs Proofs.Smith_proofs
+  Proofs.Schwartz_proofs Proofs.SchwartzInv_proofs.
 Import ListNotations.
 Open Scope Z_scope.
 
@@ -19,9 +21,9 @@ Proof. exact cw_spec. Qed.
 Theorem C06_cw_unique : forall (v : pvotes) c c', is_cw v c -> is_cw v c' -> c = c'.
 Proof. exact is_cw_unique. Qed.
 
-(* SmithSet/SchwartzSet: the result is a non-empty prefix of the Copeland order, and the
-   single pass over the wins (sorted by the loser's rank) is complete: the prefix is closed
-   under "beats or ties a member" (Smith, ties=true) resp. "beats a member" (Schwartz). *)
+(* the Smith routine (_smith_schwartz_set; SmithSet runs it with ties = true): the result is a non-empty prefix of the
+   Copeland order, and the single pass over the wins (sorted by the loser's rank) is complete: the prefix is closed
+   under "beats or ties a member" (ties = true) resp. "beats a member" (ties = false, no longer run by SchwartzSet). *)
 Theorem C06_smith_prefix_closed : forall v ties,
   let cv := complete v in
   let wins := pairwise_wins cv ties in
@@ -49,38 +51,78 @@ Proof.
   - intros S [Hne Hdom]. exact (smith_minimal v Hnn H2 S Hne Hdom).
 Qed.
 
-(* the Schwartz clause: full statement kept visible; refuted on the pinned tree (known finding C06-schwartz),
-   decided per case by a brute-force reference in the correspondence run *)
-Definition undominated (v : pvotes) (S : list C) : Prop :=
-  S <> [] /\ forall a b, In a S -> In b (candidates v) -> ~ In b S -> ~ beats v b a.
+(* ---- the Schwartz clause.  SchwartzSet (after the repair fixes/C06-schwartz-set) is Model/Condorcet.v schwartz_set: the
+   candidates that have a beat path (a chain of strict pairwise defeats; an absent pair counts as 0 : 0, a tied pair is no
+   defeat) back to every candidate with a beat path to them.  Proofs/Schwartz_proofs.v:
+     beatpath v a b    : a chain of strict defeats leads from a to b;
+     unbeaten_set v S  : S is a non-empty list of candidates of v and no candidate outside S beats a member of S.
+   The full statement: the returned set is EXACTLY the union of the minimal unbeaten sets; it is non-empty; it lies inside
+   the Smith set; it is {w} when w is the Condorcet winner; its members do not depend on the order of the dictionary. *)
 Definition C06_schwartz_full_statement : Prop :=
-  forall v, NoDup (map fst v) -> (forall p n, In (p, n) v -> 0 <= n) ->
-    forall c, In c (smith_schwartz v false) <->
-      exists S, undominated v S /\ In c S /\
-                (forall T, undominated v T -> incl T S -> incl S T).
+  forall v, NoDup (map fst v) -> (forall p n, In (p, n) v -> 0 <= n) -> (2 <= length (candidates v))%nat ->
+    (forall c, In c (schwartz_set v) <->
+       exists S, unbeaten_set v S /\ In c S /\ (forall T, unbeaten_set v T -> incl T S -> incl S T)) /\
+    schwartz_set v <> [] /\
+    incl (schwartz_set v) (smith_schwartz v true) /\
+    (forall w, is_cw v w -> schwartz_set v = [w]) /\
+    (forall v', Permutation v v' -> Permutation (schwartz_set v) (schwartz_set v')).
 
-(* Schwartz: refuted on the pinned tree - a tied pair {(A,B):1,(B,A):1}: both candidates are
-   unbeaten (each is a minimal undominated set) but the routine returns nothing *)
-Theorem C06_schwartz_refuted : ~ C06_schwartz_full_statement.
+Theorem C06_schwartz : C06_schwartz_full_statement.
 Proof.
-  intros H.
-  set (v := [((1%positive, 2%positive), 1); ((2%positive, 1%positive), 1)] : pvotes).
-  assert (Hnd : NoDup (map fst v)).
-  { simpl. constructor; [intros [H1|[]]; discriminate|]. constructor; [intros []|constructor]. }
-  assert (Hnn : forall p n, In (p, n) v -> 0 <= n).
-  { intros p n [H1|[H1|[]]]; injection H1 as <- <-; lia. }
-  specialize (H v Hnd Hnn 1%positive). destruct H as [_ H].
-  assert (Hin : In 1%positive (smith_schwartz v false)).
-  { apply H. exists [1%positive]. split; [|split].
-    - split; [discriminate|]. intros a b [<-|[]] Hb Hnb. vm_compute in Hb.
-      destruct Hb as [<-|[<-|[]]]; [exfalso; apply Hnb; left; reflexivity|].
-      unfold beats. vm_compute. intros Hlt. discriminate Hlt.
-    - left. reflexivity.
-    - intros T [HT _] Hincl x [<-|[]]. destruct T as [|t T]; [congruence|].
-      assert (Ht : In t [1%positive]) by (apply Hincl; left; reflexivity).
-      destruct Ht as [<-|[]]. left. reflexivity. }
-  vm_compute in Hin. exact Hin.
+  intros v Hnd Hnn H2. split; [|split; [|split; [|split]]].
+  - exact (schwartz_spec v Hnn H2).
+  - exact (schwartz_nonempty v Hnn H2).
+  - intros c. exact (schwartz_in_smith v Hnn H2 c).
+  - exact (schwartz_cw v Hnn H2).
+  - intros v' Hp. exact (schwartz_perm v v' Hnd Hnn Hp).
 Qed.
+
+(* the same set, said with beat paths: c is returned iff every candidate with a beat path to c is reached by a beat path
+   from c (c is maximal for the transitive closure of the strict-beat relation) *)
+Theorem C06_schwartz_beatpath : forall v : pvotes,
+  (forall p n, In (p, n) v -> 0 <= n) -> (2 <= length (candidates v))%nat ->
+  forall c, In c (schwartz_set v) <-> In c (candidates v) /\ forall o, beatpath v o c -> beatpath v c o.
+Proof. exact schwartz_in. Qed.
+
+(* every candidate is in the Schwartz set or is reached by a beat path from a member *)
+Theorem C06_schwartz_above : forall v : pvotes,
+  (forall p n, In (p, n) v -> 0 <= n) -> (2 <= length (candidates v))%nat ->
+  forall c, In c (candidates v) -> exists m, In m (schwartz_set v) /\ (m = c \/ beatpath v m c).
+Proof. exact schwartz_above. Qed.
+
+(* shape, for every dictionary: no candidate twice, candidates of the dictionary only *)
+Theorem C06_schwartz_shape : forall v : pvotes, NoDup (schwartz_set v) /\ incl (schwartz_set v) (candidates v).
+Proof. exact schwartz_set_shape. Qed.
+
+(* the routine the pinned tree ran for SchwartzSet - the Smith routine with ties = false, a prefix of the Copeland order
+   closed under strict defeats - is NOT the Schwartz set (fixed finding C06-schwartz): on a tied pair {(1,2):1,(2,1):1}
+   both candidates are unbeaten and the prefix routine returns nothing.  Kept as the machine-checked reason for the repair;
+   the check raises a VIOLATION when SchwartzSet behaves like this again. *)
+Theorem C06_schwartz_prefix_routine_differs : exists v c,
+  NoDup (map fst v) /\ (forall p n, In (p, n) v -> 0 <= n) /\ (2 <= length (candidates v))%nat /\
+  In c (schwartz_set v) /\ ~ In c (smith_schwartz v false).
+Proof.
+  exists [((1%positive, 2%positive), 1); ((2%positive, 1%positive), 1)], 1%positive.
+  split; [|split; [|split; [|split]]].
+  - simpl. constructor; [intros [H1|[]]; discriminate|]. constructor; [intros []|constructor].
+  - intros p n [H1|[H1|[]]]; injection H1 as <- <-; lia.
+  - vm_compute. lia.
+  - vm_compute. left. reflexivity.
+  - vm_compute. intros [].
+Qed.
+
+(* non-vacuity: a tied pair - both; two tied unbeaten candidates above a third - both, whatever the order of the pairs;
+   a cycle 1 > 2 > 3 > 1 with 4 tied against everybody - all four (4 is unbeaten, the cycle is a minimal unbeaten set) *)
+Example C06_schwartz_example :
+  schwartz_set [((1%positive, 2%positive), 1); ((2%positive, 1%positive), 1)] = [1%positive; 2%positive] /\
+  schwartz_set [((1%positive, 2%positive), 1); ((2%positive, 1%positive), 1); ((1%positive, 3%positive), 2);
+                ((3%positive, 1%positive), 0); ((2%positive, 3%positive), 2); ((3%positive, 2%positive), 0)] = [1%positive; 2%positive] /\
+  schwartz_set [((2%positive, 1%positive), 1); ((1%positive, 2%positive), 1); ((2%positive, 3%positive), 2);
+                ((3%positive, 2%positive), 0); ((1%positive, 3%positive), 2); ((3%positive, 1%positive), 0)] = [2%positive; 1%positive] /\
+  schwartz_set [((1%positive, 2%positive), 2); ((2%positive, 1%positive), 1); ((2%positive, 3%positive), 2);
+                ((3%positive, 2%positive), 1); ((3%positive, 1%positive), 2); ((1%positive, 3%positive), 1);
+                ((4%positive, 1%positive), 1); ((1%positive, 4%positive), 1)] = [1%positive; 2%positive; 4%positive; 3%positive].
+Proof. vm_compute. repeat split; reflexivity. Qed.
 
 (* non-vacuity: a three-cycle, Smith set = everybody *)
 Example C06_example :
@@ -94,4 +136,8 @@ Print Assumptions C06_cw_spec.
 Print Assumptions C06_cw_unique.
 Print Assumptions C06_smith_prefix_closed.
 Print Assumptions C06_smith_set.
-Print Assumptions C06_schwartz_refuted.
+Print Assumptions C06_schwartz.
+Print Assumptions C06_schwartz_beatpath.
+Print Assumptions C06_schwartz_above.
+Print Assumptions C06_schwartz_shape.
+Print Assumptions C06_schwartz_prefix_routine_differs.
